@@ -20,7 +20,26 @@ func tokenStarts(q string) map[int]bool {
 	m := map[int]bool{}
 	safely(func() string {
 		for _, t := range kvql.NewLexer(q).Split() {
-			m[t.Pos] = true
+			// a token start only if the text of the query AT that offset is this token (the lexer's own offsets
+			// are not taken on trust: C16 is a different property): words case-insensitively, literals by their quote
+			if t.Pos < 0 || t.Pos >= len(q) {
+				continue
+			}
+			rest := q[t.Pos:]
+			ok := false
+			switch c := rest[0]; {
+			case c == '\'' || c == '"' || c == '`':
+				ok = true // a literal or quoted name (terminated or not) starts at its quote
+			default:
+				ok = len(rest) >= len(t.Data) && strings.EqualFold(rest[:len(t.Data)], t.Data)
+				if !ok && len(t.Data) > 0 {
+					// operators and keywords may be stored in a canonical spelling: accept the same first byte
+					ok = rest[0] == t.Data[0] || strings.EqualFold(rest[:1], t.Data[:1])
+				}
+			}
+			if ok {
+				m[t.Pos] = true
+			}
 		}
 		return ""
 	})
@@ -116,7 +135,8 @@ func runERRPOS(e *Env) (*Summary, error) {
 	var sitesMu sync.Mutex
 	for ci, cq := range errposCorpus {
 		long := strings.Replace(cq, "where ", "where key != 'a long literal that pushes the rest of the statement beyond seventy bytes' & ", 1)
-		for vi, v := range []string{cq, "   " + cq + "  ", "\n\t" + cq, long, strings.Repeat(" ", 40) + long} {
+		// (a byte order mark in front of the text is part of the text: offsets count its three bytes)
+		for vi, v := range []string{cq, "   " + cq + "  ", "\n\t" + cq, long, strings.Repeat(" ", 40) + long, "\ufeff" + cq, "\ufeff " + cq} {
 			if vi >= 3 && !strings.Contains(cq, "where ") {
 				continue
 			}
